@@ -14,6 +14,12 @@ from .paths import enumerate_paths, PathLimit
 from .util import view_deep, view
 
 
+class NotIn(frozenset):
+    """Complement of a label set (an enum atom that is the function's result, on the `false` side)."""
+    def __contains__(self, x):
+        return not frozenset.__contains__(self, x)
+
+
 def rows(prog, key, classify, deep=True, max_paths=20000):
     fv = view_deep(prog, key) if deep else view(prog, key)
     rend = Renderer(fv, depth=16, through_names=True)
@@ -53,37 +59,69 @@ def rows(prog, key, classify, deep=True, max_paths=20000):
         if vn in ("Some", "Ok", "None", "Err"):
             out.append((facts, vn in ("Some", "Ok"), unknown))
             continue
-        # computed result: the definition of _0 on this path
+        # computed result: the definition of _0 on this path, followed through copies and negations
         pos = {b: i for i, b in enumerate(blocks)}
-        ds = [d for d in fv.defs().get(0, []) if d[0] in pos]
-        if not ds:
+        cur, neg, hops, final = 0, False, 0, None
+        while hops < 24:
+            hops += 1
+            ds = [d for d in fv.defs().get(cur, []) if d[0] in pos]
+            if not ds:
+                break
+            bi, si, st = max(ds, key=lambda d: pos[d[0]])
+            if si == "t":
+                final = ("expr", rend.call_expr(st, 16, bi))
+                break
+            rv = st["rv"]
+            if rv["r"] == "use":
+                o = rv["o"]
+                if "k" in o and o["k"].get("v") in (0, 1):
+                    final = ("const", bool(o["k"]["v"]))
+                    break
+                q = o.get("c") or o.get("m")
+                if q is not None and not q.get("p"):
+                    cur = q["l"]
+                    continue
+                final = ("expr", rend.rvalue(rv, 16))
+                break
+            if rv["r"] == "un" and rv.get("op") == "Not":
+                q = rv["a"].get("c") or rv["a"].get("m")
+                if q is not None and not q.get("p"):
+                    neg = not neg
+                    cur = q["l"]
+                    continue
+            final = ("expr", rend.rvalue(rv, 16))
+            break
+        if final is None:
             out.append((facts, None, unknown))
             continue
-        bi, si, st = max(ds, key=lambda d: pos[d[0]])
-        cur_e = rend.call_expr(st, 16, bi) if si == "t" else rend.rvalue(st["rv"], 16)
-        # follow a copy chain to the definition passed on this path
-        hops = 0
-        while si != "t" and st["rv"]["r"] == "use" and hops < 6:
-            hops += 1
-            q = st["rv"]["o"].get("c") or st["rv"]["o"].get("m")
-            if q is None or q.get("p"):
-                break
-            ds2 = [d for d in fv.defs().get(q["l"], []) if d[0] in pos]
-            if not ds2:
-                break
-            bi, si, st = max(ds2, key=lambda d: pos[d[0]])
-            cur_e = rend.call_expr(st, 16, bi) if si == "t" else rend.rvalue(st["rv"], 16)
+        if final[0] == "const":
+            out.append((facts, final[1] != neg, unknown))
+            continue
+        cur_e = final[1]
         a = classify(cur_e, frozenset({"true"}), fv)
         if a is None or a == "skip":
             out.append((facts, None, unknown + [("result:" + show(cur_e, 80), ())]))
             continue
         name, val = a
         for v in (True, False):
-            if name in facts and facts[name] != (val if v else not val):
+            if isinstance(val, (set, frozenset)):
+                atom_val = frozenset(val) if v else NotIn(val)
+                f2 = dict(facts)
+                if name in facts and isinstance(facts[name], (set, frozenset)) and not isinstance(facts[name], NotIn):
+                    keep = frozenset(x for x in facts[name] if x in atom_val)
+                    if not keep:
+                        continue
+                    f2[name] = keep
+                else:
+                    f2[name] = atom_val
+                out.append((f2, v != neg, unknown))
+                continue
+            atom_val = val if v else (not val)
+            if name in facts and facts[name] != atom_val:
                 continue
             f2 = dict(facts)
-            f2[name] = val if v else (not val)
-            out.append((f2, v, unknown))
+            f2[name] = atom_val
+            out.append((f2, v != neg, unknown))
     return out, fv
 
 
